@@ -42,6 +42,19 @@ for (_q, _t), _w in REVIEWED.items():
     _REVIEWED_N.setdefault((_q, _alpha(_t.split("#")[0])), []).append(_w)
 
 
+def _moved_entry(qn, text, mi, used):
+    """a reviewed comparison whose code was moved into another function of the same
+    module ('extract function'): the review is about the comparison, one entry
+    still covers one comparison"""
+    mod = mi.name.replace("pytato.", "", 1)
+    for (q, t), whys in _REVIEWED_N.items():
+        if t == text and q != qn and (q == mod or q.startswith(mod + ".")) \
+                and used[(q, t)] < len(whys):
+            used[(q, t)] += 1
+            return whys[0] + f" (entry written for {q})"
+    return None
+
+
 class ShapeTyping:
     def __init__(self, m):
         self.m = m
@@ -202,6 +215,8 @@ def r_route(c):
                     used_rev[(qn, _alpha(inst))] += 1
                     c.exempt("R16-ROUTE", qn, inst, where,
                              _REVIEWED_N[(qn, _alpha(inst))][0])
+                elif (moved := _moved_entry(qn, _alpha(inst), mi, used_rev)) is not None:
+                    c.exempt("R16-ROUTE", qn, inst, where, moved)
                 else:
                     c.violation(
                         "R16-ROUTE", qn, inst, where,
